@@ -97,10 +97,12 @@ Definition agree (c : case) : bool :=
     (let f := objective UtM UtU n l1 l2 V in let fs := objective UtM UtU n l1 l2 Xstar in
      qle (qabs (qsub f fs)) (qmul tobj (qadd 1 (qabs fs))))
   | CFista _ UtM UtU n nonneg sp rd lr tol eps x0 betas impl =>
-    (* the returned point is one of the model's iterates *)
-    existsb (fun k => mclose atol rtol (fista Qops UtM UtU n nonneg sp rd lr tol eps x0 (firstn k betas)) impl)
-            (rev (seq 0 (S (length betas))))
-    || mclose atol rtol (fista Qops UtM UtU n nonneg sp rd lr tol eps x0 betas) impl
+    (* the returned point is the model's result, or at least one of the model's iterates (the iteration at which the
+       stopping rule fires is incidental; with tol = 0 the model's rule never fires -- C13_fista_tol0_partial -- so
+       `fista ... 0 ... (firstn k betas)` is exactly the k-th iterate) *)
+    mclose atol rtol (fista Qops UtM UtU n nonneg sp rd lr tol eps x0 betas) impl
+    || existsb (fun k => mclose atol rtol (fista Qops UtM UtU n nonneg sp rd lr 0 eps x0 (firstn k betas)) impl)
+               (rev (seq 0 (S (length betas))))
   | CAset _ Utm UtU x0 iters tol impl =>
     match active_set_nnls Qops (gauss_solve Qops) (fun x => x) Utm UtU tol x0 iters, impl with
     | None, None => true
